@@ -842,6 +842,9 @@ pub fn dist_q(reference: &Outcome, r: &Outcome) -> i64 {
                         }
                         continue;
                     }
+                    if p.is_nan() && q.is_nan() {
+                        continue;
+                    }
                     if !p.is_finite() || !q.is_finite() {
                         big = true;
                         continue;
